@@ -21,16 +21,30 @@ static std::string string_of(const std::vector<std::string>& a, size_t from) {
 	return s;
 }
 
+// variants of a library-printed 0b string for the assign() parsers: the string itself, a nibble marker inserted, one character
+// replaced, one deleted, a separator moved -- the judge evaluates the transcribed parser (cf_assign / fx_assign) on the same bytes
+static void emit_assign_variants(const std::string& s, Rng& g, const std::function<void(int, std::vector<std::string>)>& emit) {
+	auto em = [&](const std::string& t) { std::vector<std::string> v; for (unsigned char c : t) { char b[8]; snprintf(b, sizeof b, "%x", c); v.push_back(b); } emit(OP_strassign, v); };
+	em(s);
+	if (s.size() < 3) return;
+	size_t n = s.size();
+	{ std::string t = s; t.insert(2 + g.below(n - 1), 1, '\''); em(t); }
+	{ std::string t = s; t[g.below(n)] = "01.'2b"[g.below(6)]; em(t); }
+	{ std::string t = s; t.erase(g.below(n), 1); em(t); }
+	{ std::string t = s; size_t d = t.find('.', 2 + g.below(n - 2)); if (d != std::string::npos && d + 1 < n) { std::swap(t[d], t[d + 1]); em(t); } }
+}
+
 template <unsigned N, unsigned ES>
 struct RP : Runner {
 	using T = posit<N, ES>;
-	RP(bool sm) { fam = FAM_posit; nbits = N; small = sm; cfg = std::to_string(N) + "," + std::to_string(ES); ops1 = {OP_hexfmt, OP_hexparse}; }
+	RP(bool sm) { fam = FAM_posit; nbits = N; small = sm; cfg = std::to_string(N) + "," + std::to_string(ES); ops1 = {OP_hexfmt, OP_hexparse, OP_hexstr}; }
 	static std::string out(const T& p) { auto bb = p.get(); return hex_from_bits(N, [&](unsigned i) { return bb.test(i); }); }
 	std::string run(int op, const std::vector<std::string>& a) override {
 		return guarded([&]() -> std::string {
 			T x; x.setbits(hexu64(a[0]));
 			if (op == OP_hexfmt) { std::string s = hex_format(x); T y; if (!parse(s, y)) return "!parse-failed"; return out(y); }
 			if (op == OP_hexparse) { std::stringstream ss; ss << hex_format(x); T y; ss >> y; return out(y); }   // operator>>
+			if (op == OP_hexstr) return bytes_of(hex_format(x));   // the text itself, compared byte for byte with the model's string
 			return "?";
 		});
 	}
@@ -39,34 +53,44 @@ struct RP : Runner {
 template <unsigned N, unsigned ES, typename BT, bool SUB, bool SUP, bool SAT>
 struct RC : Runner {
 	using T = cfloat<N, ES, BT, SUB, SUP, SAT>;
-	RC(bool sm) { fam = FAM_cfloat; nbits = N; small = sm; ops1 = {OP_binfmt};
+	RC(bool sm) { fam = FAM_cfloat; nbits = N; small = sm; ops1 = {OP_binfmt, OP_binstr};
 		cfg = std::to_string(N) + "," + std::to_string(ES) + "," + (SUB ? "1" : "0") + "," + (SUP ? "1" : "0") + "," + (SAT ? "1" : "0") + "," + std::to_string(8 * sizeof(BT)); }
 	std::string run(int op, const std::vector<std::string>& a) override {
 		return guarded([&]() -> std::string {
+			if (op == OP_strassign) { T y; y.assign(string_of(a, 0)); return out_bits(y, N); }
 			T x = mk_bits<T>(a[0], N);
 			if (op == OP_binfmt) { std::string s = to_binary(x); T y; y.assign(s); return out_bits(y, N); }
+			if (op == OP_binstr) return bytes_of(to_binary(x));
 			return "?";
 		});
+	}
+	void extra(const std::string& ha, Rng& g, const std::function<void(int, std::vector<std::string>)>& emit) override {
+		T x = mk_bits<T>(ha, N); emit_assign_variants(to_binary(x), g, emit);
 	}
 };
 template <unsigned N, unsigned RB, typename BT>
 struct RF : Runner {
 	using T = fixpnt<N, RB, Modulo, BT>;
-	RF(bool sm) { fam = FAM_fixpnt; nbits = N; small = sm; ops1 = {OP_binfmt, OP_decfmt};
+	RF(bool sm) { fam = FAM_fixpnt; nbits = N; small = sm; ops1 = {OP_binfmt, OP_decfmt, OP_binstr};
 		cfg = std::to_string(N) + "," + std::to_string(RB) + ",0," + std::to_string(8 * sizeof(BT)); }
 	std::string run(int op, const std::vector<std::string>& a) override {
 		return guarded([&]() -> std::string {
+			if (op == OP_strassign) { T y; y.assign(string_of(a, 0)); return out_bits(y, N); }
 			T x = mk_bits<T>(a[0], N);
 			if (op == OP_binfmt) { std::string s = to_binary(x); T y; y.assign(s); return out_bits(y, N); }
+			if (op == OP_binstr) return bytes_of(to_binary(x));
 			if (op == OP_decfmt) { std::stringstream ss; ss << std::setprecision(200) << x; return bytes_of(convert_to_decimal_string(x)); }
 			return "?";
 		});
+	}
+	void extra(const std::string& ha, Rng& g, const std::function<void(int, std::vector<std::string>)>& emit) override {
+		T x = mk_bits<T>(ha, N); emit_assign_variants(to_binary(x), g, emit);
 	}
 };
 template <unsigned N, typename BT>
 struct RI : Runner {
 	using T = integer<N, BT>;
-	RI(bool sm) { fam = FAM_integer; nbits = N; small = sm; ops1 = {OP_hexfmt, OP_decfmt, OP_streamfmt, OP_binparse};
+	RI(bool sm) { fam = FAM_integer; nbits = N; small = sm; ops1 = {OP_hexfmt, OP_decfmt, OP_streamfmt, OP_binparse, OP_hexstr, OP_hexparse};
 		cfg = std::to_string(N) + "," + std::to_string(8 * sizeof(BT)); }
 	std::string run(int op, const std::vector<std::string>& a) override {
 		return guarded([&]() -> std::string {
@@ -76,6 +100,8 @@ struct RI : Runner {
 				std::string s = "0x" + hex_from_bits(N, [&](unsigned i) { return x.at(i); });
 				T y; if (!parse(s, y)) return "!parse-failed"; return out_bits(y, N); }
 			if (op == OP_binparse) { std::string s = to_string(x); T y; if (!parse(s, y)) return "!parse-failed"; return out_bits(y, N); }   // decimal round trip
+			if (op == OP_hexstr) return bytes_of(to_hex(x));      // the library's own hexadecimal string (upper case), byte for byte
+			if (op == OP_hexparse) { std::string s = to_hex(x); T y; if (!parse(s, y)) return "!parse-failed"; return out_bits(y, N); }
 			if (op == OP_decfmt) return bytes_of(to_string(x));
 			if (op == OP_streamfmt) { std::stringstream ss; ss << x; return bytes_of(ss.str()); }   // operator<< (a different code path: convert_to_string)
 			return "?";
@@ -108,6 +134,6 @@ int main(int argc, char** argv) {
 	regF<4,2,uint8_t>(true); regF<7,3,uint8_t>(true); regF<8,0,uint8_t>(true); regF<8,4,uint8_t>(true); regF<8,8,uint8_t>(true); regF<10,5,uint8_t>(true); regF<12,4,uint16_t>(true);
 	regF<16,8,uint8_t>(false); regF<24,12,uint16_t>(false); regF<32,16,uint32_t>(false); regF<33,16,uint8_t>(false); regF<48,24,uint16_t>(false); regF<64,32,uint32_t>(false);
 	regI<4,uint8_t>(true); regI<5,uint16_t>(true); regI<6,uint8_t>(true); regI<7,uint8_t>(true); regI<11,uint32_t>(true); regI<8,uint8_t>(true); regI<9,uint8_t>(true); regI<10,uint16_t>(true); regI<12,uint8_t>(true);
-	regI<13,uint16_t>(false); regI<15,uint8_t>(false); regI<16,uint16_t>(false); regI<20,uint32_t>(false); regI<29,uint32_t>(false); regI<40,uint64_t>(false); regI<59,uint64_t>(false); regI<17,uint8_t>(false); regI<24,uint8_t>(false); regI<31,uint16_t>(false); regI<32,uint32_t>(false); regI<33,uint8_t>(false); regI<64,uint32_t>(false); regI<65,uint16_t>(false); regI<128,uint32_t>(false);
+	regI<13,uint16_t>(false); regI<15,uint8_t>(false); regI<16,uint16_t>(false); regI<20,uint32_t>(false); regI<29,uint32_t>(false); regI<40,uint64_t>(false); regI<59,uint64_t>(false); regI<17,uint8_t>(false); regI<24,uint8_t>(false); regI<31,uint16_t>(false); regI<32,uint32_t>(false); regI<33,uint8_t>(false); regI<64,uint32_t>(false); regI<65,uint16_t>(false); regI<128,uint32_t>(false); regI<70,uint64_t>(false); regI<128,uint64_t>(false);
 	return drv_main(argc, argv);
 }
